@@ -182,6 +182,24 @@ func runSession(c J) J {
 	}
 	obs["texts"] = srcs
 	eng := liquid.NewEngine()
+	// sources registered through ParseTemplateAndCache (no file of that name exists)
+	for _, fx := range jarr(c, "cache") {
+		fa, _ := fx.([]any)
+		if len(fa) != 2 {
+			continue
+		}
+		content, err := pr.fileSource(fa)
+		if err != nil {
+			obs["outcome"] = "skip"
+			obs["msg"] = err.Error()
+			return obs
+		}
+		if _, err := eng.ParseTemplateAndCache([]byte(content), bytesOf(fa[0]), 1); err != nil {
+			obs["outcome"] = "skip"
+			obs["msg"] = "cache entry does not parse: " + err.Error()
+			return obs
+		}
+	}
 	tpls := make([]*liquid.Template, len(srcs))
 	parseErr := make([]liquid.SourceError, len(srcs))
 	for i, s := range srcs {
@@ -279,6 +297,17 @@ func runSession(c J) J {
 		}
 		var wg sync.WaitGroup
 		start := make(chan struct{})
+		// meanwhile other goroutines keep caching further templates on the same engine
+		for w := 0; w < jint(c, "cachewriters"); w++ {
+			wg.Add(1)
+			go func(w int) {
+				defer wg.Done()
+				<-start
+				for i := 0; i < 40; i++ {
+					eng.ParseTemplateAndCache([]byte("cached"), fmt.Sprintf("zz_cache_%d_%d.liq", w, i), 1)
+				}
+			}(w)
+		}
 		for g := 0; g < n; g++ {
 			wg.Add(1)
 			go func(g int) {
